@@ -75,6 +75,22 @@ CLAIMS = {
         text="Grid.tla defines ceil(M/dt)+1, (T-1-i)dt modulo T and floor(start/dt) over rationals and TLC checks the grid invariants for M=(k+f)dt, k=1..60 (thorough ..260 and large), "
              "10 step sizes, 5 fractions; the harness passes the floats a user would type to the real instruments and compares buffer shapes, time_to_maturity(i|None), hedge and payoff shapes.",
         note="Trusted: TLC, torch. time to maturity within 4*eps*(T-1)*dt, exact zero at the end; BrownianStock on all cases, the other 7 primaries on every 11th."),
+    "C16": dict(
+        engine="Session.tla + SessionTrace.tla / TLC -> replay + trace validation",
+        technique="TLA+ session machine with buffer versions and a result memo; TLC interleavings replayed on real objects with content hashes and fresh-hedger comparison; recorded sessions validated by TLC (SessionTrace.tla)",
+        category=MC, design_ref="DESIGN.md 3 C16",
+        text="TLC checks Purity, Locality, FreshOnSimulate and HistoryIndependent over all interleavings of the public operations to bounded depth; the interleavings are executed on real "
+             "instruments with six hedger kinds, hashing every buffer after every operation and comparing every result with a fresh hedger holding the same parameters; seeded random "
+             "sessions recorded at public entry points are accepted by SessionTrace.tla only if every line (versions, result ids) is explained; an argument-purity sweep covers the public API.",
+        note="Trusted: TLC, SHA-1 content hashes, torch determinism for equal inputs. Depth 3 exhaustive (sampled for replay) + simulated depth 9; fit() under C15, dtype histories under C17."),
+    "C17": dict(
+        engine="Dtype.tla + DtypeTrace.tla / TLC -> replay + trace validation",
+        technique="TLA+ dtype state machine explored exhaustively (full reachable graph); all bounded histories replayed on real instruments with the state compared after every operation; recorded traces validated by TLC (DtypeTrace.tla)",
+        category=MC, design_ref="DESIGN.md 3 C17",
+        text="TLC explores the complete reachable graph of the dtype machine (1066 states, 84k transitions) with Contract and four action properties; every history of length 3 (thorough 4) and simulated "
+             "histories of length 7 over the full alphabet are executed on real BrownianStock/HestonStock/EuropeanOption objects with the projected state compared after every call and the dtype of "
+             "payoff/features/listed price/hedge/P&L/loss/cash compared at the end; seeded random real runs are validated line by line by DtypeTrace.tla.",
+        note="Trusted: TLC, torch. CPU only (device modelled, not exercised). Half-precision backend gaps end the judged part of a history."),
     "C19": dict(
         engine="Bisect.tla (PlusCal) / TLC -> exact trajectory replay",
         technique="PlusCal algorithm of bisect() model-checked over all monotone tables on a grid (safety + termination); every behaviour replayed with the evaluation-point trajectory compared exactly; postcondition on continuous families and implied volatility",
